@@ -325,6 +325,26 @@ fn main() {
         t
     });
 
+    // S2c structured operands (word limits, word-crossing products, patterns at every length, carry chains,
+    // all-ones words) x scales x written-out zeros through the accessors and normalized()
+    let st = structured_ints(tier.pick(80, 300), tier.pick(24, 60), run.seed());
+    run.bound("S2c_structured_integers", st.len());
+    run.par("S2c structured operands x accessors", st.len(), |i| {
+        let mut t = Tally::default();
+        for x in structured_decimals(&st[i..=i], &[0, 3, -3, 19, 40], &[0, 1, 19, 20]) {
+            t.states += 1;
+            t.transitions += 17 * 3 + 1;
+            t.nontrivial += 1;
+            for viol in check_accessors(&x) {
+                run.report(viol);
+            }
+            if let Some(viol) = check_normalized(&x) {
+                run.report(viol);
+            }
+        }
+        t
+    });
+
     // S3 normalized: n*10^z, z in 0..=130 and the algorithm-switch lengths; twins must agree exactly
     let mut zs: Vec<u64> = (0..=130).collect();
     zs.extend(if tier.is_thorough() { vec![255, 256, 257, 589, 590, 591, 1000, 2000, 5000] } else { vec![256, 590, 1000] });
